@@ -1095,6 +1095,24 @@ fn group_probes(acc: &mut Acc) {
             }
         }
     }
+    // Curve25519: DeriveDiffieHellmanKeyPair is the RFC 7748 clamp of the seed, for every seed (boundary seeds included)
+    {
+        let clamp = |mut b: [u8; 32]| -> [u8; 32] { b[0] &= 248; b[31] &= 127; b[31] |= 64; b };
+        let mut seeds: Vec<[u8; 32]> = vec![[0u8; 32], [0xffu8; 32], { let mut s = [0u8; 32]; s[0] = 7; s }, { let mut s = [0u8; 32]; s[31] = 0x80; s }, { let mut s = [0u8; 32]; s[31] = 0x40; s }];
+        let mut rng = StdRng::seed_from_u64(1919);
+        for _ in 0..32 { let mut s = [0u8; 32]; rng.fill_bytes(&mut s); seeds.push(s); }
+        for seed in seeds {
+            acc.tried += 1;
+            match <opaque_ke::Curve25519 as KeGroup>::derive_auth_keypair::<opaque_ke::Ristretto255>(generic_array::GenericArray::clone_from_slice(&seed)) {
+                Ok(sk) => {
+                    let got = <opaque_ke::Curve25519 as KeGroup>::serialize_sk(sk).to_vec();
+                    if got != clamp(seed).to_vec() { acc.hit("*_X", "Curve25519 key derivation differs from the RFC 7748 clamp of the seed", json!({"seed": hx(&seed), "got": hx(&got)})); }
+                    if <opaque_ke::Curve25519 as KeGroup>::deserialize_sk(&got).is_err() { acc.hit("*_X", "derived Curve25519 key is not accepted by its own decoder", json!({"seed": hx(&seed)})); }
+                }
+                Err(e) => acc.hit("*_X", "Curve25519 key derivation refuses a seed (every seed has a valid non-zero clamped key)", json!({"seed": hx(&seed), "error": format!("{:?}", e)})),
+            }
+        }
+    }
     // identity / zero encodings for the other groups
     acc.tried += 1;
     if PublicKey::<opaque_ke::Ristretto255>::deserialize(&[0u8; 32]).is_ok() { acc.hit("*_R", "ristretto identity accepted", json!({})); }
